@@ -292,12 +292,20 @@ Definition hs_check (c : hs_case) : bool :=
 (* ------------------------------------------------------------------ *)
 (* transport cases *)
 
-Inductive msg := MLit (bs : list N) | MRep (n b : N).
+(* MSeq n a: the n bytes a, a+1, ... counted modulo 251 (a < 251) *)
+Inductive msg := MLit (bs : list N) | MRep (n b : N) | MSeq (n a : N).
+
+Fixpoint seq_bytes (n : nat) (a : N) : list N :=
+  match n with
+  | O => []
+  | S k => a :: seq_bytes k (if N.eqb (a + 1) 251 then 0 else a + 1)
+  end.
 
 Definition msg_bytes (m : msg) : list N :=
   match m with
   | MLit bs => bs
   | MRep n b => repeat b (N.to_nat n)
+  | MSeq n a => seq_bytes (N.to_nat n) a
   end.
 
 Inductive ptamper :=
@@ -429,9 +437,113 @@ Definition mk_tstate (ir : tmachine * tmachine) : tstate :=
 Definition tr_init : option tstate :=
   Eval vm_compute in option_map mk_tstate (snd (hs_run tr_handshake)).
 
+(* ------------------------------------------------------------------ *)
+(* brontide.Conn cases: two Conns over scripted in-memory net.Conns *)
+
+Definition x_conn_write := conn_write N wsym t_enc t_hkdf.
+Definition x_flush_l := flush_l N wsym.
+Definition x_conn_read := conn_read N wsym t_dec t_hkdf.
+Definition x_conn_read_next_message := conn_read_next_message N wsym t_dec t_hkdf.
+Definition x_conn_read_next_header := conn_read_next_header N wsym t_dec t_hkdf.
+Definition x_conn_read_next_body := conn_read_next_body N wsym t_dec t_hkdf.
+
+Definition cerr_code (e : cerr) : N :=
+  match e with
+  | CNone => 0
+  | CMach e => err_code e
+  | CWriter => 8
+  | CFuel => 9
+  end.
+
+Inductive kop :=
+| KWrite (d : bool) (m : msg) (rs : list (N * bool)) (n code calls took : N)   (* Conn.Write *)
+| KWriteMsg (d : bool) (m : msg) (code : N)                                     (* Conn.WriteMessage *)
+| KFlush (d : bool) (rs : list (N * bool)) (n code calls took : N)              (* Conn.Flush *)
+| KRead (d : bool) (k : N) (code : N) (out : option msg)                        (* Conn.Read, len(b) = k *)
+| KReadNext (d : bool) (code : N) (out : option msg)                            (* ReadNextMessage *)
+| KReadHdr (d : bool) (code : N) (l : N)                                        (* ReadNextHeader *)
+| KReadBody (d : bool) (l : N) (code : N) (out : option msg).                   (* ReadNextBody *)
+
+(* one direction: the sending half of one Conn, the reading half of the other *)
+Record kchan := mkKC { kc_snd : tsender; kc_rd : creader N wsym }.
+Record kstate := mkKS { ks_ir : kchan; ks_ri : kchan }.
+
+Definition get_kc (s : kstate) (d : bool) := if d then ks_ir s else ks_ri s.
+Definition set_kc (s : kstate) (d : bool) (c : kchan) :=
+  if d then mkKS c (ks_ri s) else mkKS (ks_ir s) c.
+
+Definition rd_feed (r : creader N wsym) (ws : list wsym) : creader N wsym :=
+  mkCR N wsym (cr_cs N wsym r) (cr_buf N wsym r) (cr_stream N wsym r ++ ws).
+
+Definition res_check (r : res (list N)) (code : N) (out : option msg) : bool :=
+  match r with
+  | Ok q => N.eqb code 0 && optbytes_eqb (Some q) (option_map msg_bytes out)
+  | Err e => N.eqb code (err_code e) && match out with None => true | Some _ => false end
+  end.
+
+Definition kstep (s : kstate) (o : kop) : kstate * bool :=
+  match o with
+  | KWrite d m rs n code calls took =>
+    let c := get_kc s d in
+    let w := x_conn_write (kc_snd c) (msg_bytes m) rs in
+    (set_kc s d (mkKC (cw_snd _ _ w) (rd_feed (kc_rd c) (cw_written _ _ w))),
+     N.eqb (cw_n _ _ w) n && N.eqb (cerr_code (cw_err _ _ w)) code &&
+     N.eqb (cw_calls _ _ w) calls && N.eqb (len (cw_written _ _ w)) took)
+  | KWriteMsg d m code =>
+    let c := get_kc s d in
+    match x_write_message (kc_snd c) (msg_bytes m) with
+    | Ok s1 => (set_kc s d (mkKC s1 (kc_rd c)), N.eqb code 0)
+    | Err e => (s, N.eqb code (err_code e))
+    end
+  | KFlush d rs n code calls took =>
+    let c := get_kc s d in
+    let fo := fst (x_flush_l (kc_snd c) rs) in
+    (set_kc s d (mkKC (fo_sender _ _ fo) (rd_feed (kc_rd c) (fo_written _ _ fo))),
+     N.eqb (fo_n _ _ fo) n && N.eqb (if fo_err _ _ fo then 8 else 0) code &&
+     N.eqb (fo_calls _ _ fo) calls && N.eqb (len (fo_written _ _ fo)) took)
+  | KRead d k code out =>
+    let c := get_kc s d in
+    let '(r, rd') := x_conn_read (kc_rd c) k in
+    (set_kc s d (mkKC (kc_snd c) rd'), res_check r code out)
+  | KReadNext d code out =>
+    let c := get_kc s d in
+    let '(r, rd') := x_conn_read_next_message (kc_rd c) in
+    (set_kc s d (mkKC (kc_snd c) rd'), res_check r code out)
+  | KReadHdr d code l =>
+    let c := get_kc s d in
+    let '(r, rd') := x_conn_read_next_header (kc_rd c) in
+    (set_kc s d (mkKC (kc_snd c) rd'),
+     match r with
+     | Ok l' => N.eqb code 0 && N.eqb l l'
+     | Err e => N.eqb code (err_code e)
+     end)
+  | KReadBody d l code out =>
+    let c := get_kc s d in
+    let '(r, rd') := x_conn_read_next_body (kc_rd c) l in
+    (set_kc s d (mkKC (kc_snd c) rd'), res_check r code out)
+  end.
+
+Fixpoint krun (s : kstate) (ops : list kop) (i : N) (bad : list N) : list N :=
+  match ops with
+  | [] => rev bad
+  | o :: r =>
+    let '(s', ok) := kstep s o in
+    krun s' r (i + 1) (if ok then bad else i :: bad)
+  end.
+
+Definition mk_kstate (ir : tmachine * tmachine) : kstate :=
+  let i := fst ir in
+  let r := snd ir in
+  mkKS (mkKC (mkSnd (m_send _ _ _ _ i) [] []) (mkCR N wsym (m_recv _ _ _ _ r) [] []))
+       (mkKC (mkSnd (m_send _ _ _ _ r) [] []) (mkCR N wsym (m_recv _ _ _ _ i) [] [])).
+
+Definition kr_init : option kstate :=
+  Eval vm_compute in option_map mk_kstate (snd (hs_run tr_handshake)).
+
 Inductive case :=
 | CHs (c : hs_case)
-| CTr (ops : list top).
+| CTr (ops : list top)
+| CCn (ops : list kop).
 
 (* indices of the ops on which model and implementation disagree *)
 Definition check_case_with (init : option tstate) (c : case) : list N :=
@@ -440,6 +552,11 @@ Definition check_case_with (init : option tstate) (c : case) : list N :=
   | CTr ops =>
     match init with
     | Some s => trun s ops 0 []
+    | None => [999999]
+    end
+  | CCn ops =>
+    match kr_init with
+    | Some s => krun s ops 0 []
     | None => [999999]
     end
   end.
